@@ -111,7 +111,11 @@ func (c *OpenIDConnectHybridHandler) HandleAuthorizeEndpointRequest(ctx context.
 
 		// This is required because we must limit the authorize code lifespan.
 		ar.GetSession().SetExpiresAt(fosite.AuthorizeCode, time.Now().UTC().Add(c.AuthorizeExplicitGrantHandler.Config.GetAuthorizeCodeLifespan(ctx)).Round(time.Second))
-		if err := c.AuthorizeExplicitGrantHandler.CoreStorage.CreateAuthorizeCodeSession(ctx, signature, ar.Sanitize(c.AuthorizeExplicitGrantHandler.GetSanitationWhiteList(ctx))); err != nil {
+		// The ID token of this response is minted further down and writes its claims (exp, iat, c_hash, at_hash, nonce)
+		// into the session: what is stored for the token endpoint gets its own copy of the session.
+		codeRequest := ar.Sanitize(c.AuthorizeExplicitGrantHandler.GetSanitationWhiteList(ctx))
+		codeRequest.SetSession(ar.GetSession().Clone())
+		if err := c.AuthorizeExplicitGrantHandler.CoreStorage.CreateAuthorizeCodeSession(ctx, signature, codeRequest); err != nil {
 			return errorsx.WithStack(fosite.ErrServerError.WithWrap(err).WithDebug(err.Error()))
 		}
 
@@ -125,7 +129,9 @@ func (c *OpenIDConnectHybridHandler) HandleAuthorizeEndpointRequest(ctx context.
 		claims.CodeHash = hash
 
 		if ar.GetGrantedScopes().Has("openid") {
-			if err := c.OpenIDConnectRequestStorage.CreateOpenIDConnectSession(ctx, resp.GetCode(), ar.Sanitize(oidcParameters)); err != nil {
+			oidcRequest := ar.Sanitize(oidcParameters)
+			oidcRequest.SetSession(ar.GetSession().Clone())
+			if err := c.OpenIDConnectRequestStorage.CreateOpenIDConnectSession(ctx, resp.GetCode(), oidcRequest); err != nil {
 				return errorsx.WithStack(fosite.ErrServerError.WithWrap(err).WithDebug(err.Error()))
 			}
 		}
